@@ -48,6 +48,8 @@ pub struct ValSpec {
     pub seed: u64,
     pub simple: bool,
     pub budget: usize,
+    /// a sequence just around the deserializers' 1 MiB reservation cap
+    pub huge: bool,
 }
 
 #[derive(Clone, Debug)]
@@ -79,7 +81,7 @@ impl Plan {
             "entry": self.entry, "class": self.class.name(),
             "compress": self.compress, "validate": self.validate, "conv": self.conv,
             "invalid_ok": self.invalid_ok,
-            "values": self.values.iter().map(|v| json!({"seed": v.seed.to_string(), "simple": v.simple, "budget": v.budget})).collect::<Vec<_>>(),
+            "values": self.values.iter().map(|v| json!({"seed": v.seed.to_string(), "simple": v.simple, "budget": v.budget, "huge": v.huge})).collect::<Vec<_>>(),
             "values_shown": self.shown,
             "wplan": self.wplan.to_json(), "rplan": self.rplan.to_json(),
             "mops": self.mops.iter().map(|m| m.to_json()).collect::<Vec<_>>(),
@@ -102,6 +104,7 @@ impl Plan {
                             seed: s64(&x["seed"]),
                             simple: x["simple"].as_bool().unwrap_or(false),
                             budget: x["budget"].as_u64().unwrap_or(0) as usize,
+                            huge: x["huge"].as_bool().unwrap_or(false),
                         })
                         .collect()
                 })
@@ -130,6 +133,8 @@ pub struct Hooks {
     /// every value of the type has the same encoded size (fields, points): the reader must
     /// never be asked for a byte beyond it, whatever the bytes are
     pub fixed_size: bool,
+    /// cheap elements: occasionally generate a sequence around the 1 MiB reservation cap
+    pub bulk: bool,
 }
 
 pub struct Exec {
@@ -158,7 +163,7 @@ fn vmode(v: bool) -> Validate {
 
 fn gen_value<T: Sem>(vs: &ValSpec, invalid_ok: bool) -> T {
     let mut rng = Rng::new(vs.seed);
-    let mut g = G { rng: &mut rng, simple: vs.simple, budget: vs.budget, invalid_ok };
+    let mut g = G { rng: &mut rng, simple: vs.simple, budget: vs.budget, invalid_ok, huge: vs.huge && !vs.simple };
     T::gen(&mut g)
 }
 
@@ -266,7 +271,7 @@ pub fn gen_plan<T: Sem>(entry: &str, hooks: &Hooks, prop: &str, tier: &str, rng:
         } else {
             *rng.pick(&[0usize, 2, 8, 8, 24, 60])
         };
-        values.push(ValSpec { seed: rng.fork(), simple: false, budget: base * hooks.budget / 8 });
+        values.push(ValSpec { seed: rng.fork(), simple: false, budget: base * hooks.budget / 8, huge: false });
     }
     let mut plan = Plan {
         entry: entry.to_string(),
@@ -283,6 +288,17 @@ pub fn gen_plan<T: Sem>(entry: &str, hooks: &Hooks, prop: &str, tier: &str, rng:
         foreign_seed: rng.fork(),
         shown: vec![],
     };
+    if hooks.bulk && matches!(class, Class::Benign | Class::ReadFault) && rng.below(if tier == "thorough" { 40 } else { 120 }) == 0 {
+        // one record just around the reservation cap, moved in large pieces
+        plan.values.truncate(1);
+        plan.values[0].huge = true;
+        plan.class = Class::Benign;
+        plan.invalid_ok = false;
+        plan.wplan = IoPlan { calls: vec![Beh::Short(65536), Beh::Full, Beh::Short(4096)], hard: None };
+        plan.rplan = IoPlan { calls: vec![Beh::Short(40000), Beh::Full], hard: None };
+        plan.trailer = rng.below(9);
+        return plan;
+    }
     if class == Class::Sweep || class == Class::Foreign {
         if class == Class::Foreign {
             plan.rplan = IoPlan::gen_benign(rng);
@@ -448,7 +464,7 @@ fn execute_inner<T: Sem>(
     if plan.class == Class::Foreign {
         let Some(ff) = hooks.foreign else { return Ok(()) };
         let mut rng = Rng::new(plan.foreign_seed);
-        let mut g = G { rng: &mut rng, simple: false, budget: 4, invalid_ok: true };
+        let mut g = G { rng: &mut rng, simple: false, budget: 4, invalid_ok: true, huge: false };
         let made = catch_unwind(AssertUnwindSafe(|| ff(&mut g, c)));
         let Ok(made) = made else {
             let (x, d) = panic_extra();
@@ -476,6 +492,9 @@ fn execute_inner<T: Sem>(
                 fail!("H.value_gen_panic", &x, "{}", d);
             },
         }
+    }
+    if plan.values.iter().any(|v| v.huge) {
+        stats.bump("probe.sequence_around_reservation_cap");
     }
     let mut refs: Vec<Vec<u8>> = Vec::with_capacity(n);
     let mut sizes: Vec<usize> = Vec::with_capacity(n);
@@ -584,7 +603,7 @@ fn execute_inner<T: Sem>(
     if !plan.mops.is_empty() {
         let other = |seed: u64| -> Option<Vec<u8>> {
             catch_unwind(AssertUnwindSafe(|| {
-                let val = gen_value::<T>(&ValSpec { seed, simple: false, budget: plan.values[0].budget }, false);
+                let val = gen_value::<T>(&ValSpec { seed, simple: false, budget: plan.values[0].budget, huge: false }, false);
                 let mut b = Vec::new();
                 val.ser(&mut b, c).ok().map(|_| b)
             }))
@@ -757,7 +776,7 @@ fn read_untrusted<T: Sem>(
     }
     let budget = 64 * medium.len() + (16 << 20);
     let fixed = if hooks.fixed_size {
-        catch_unwind(AssertUnwindSafe(|| gen_value::<T>(&ValSpec { seed: 1, simple: true, budget: 0 }, false).size(c))).ok()
+        catch_unwind(AssertUnwindSafe(|| gen_value::<T>(&ValSpec { seed: 1, simple: true, budget: 0, huge: false }, false).size(c))).ok()
     } else {
         None
     };
@@ -1004,6 +1023,11 @@ pub fn shrink_plan(p: &Plan) -> Vec<Plan> {
         out.push(q);
     }
     for i in 0..p.values.len() {
+        if p.values[i].huge {
+            let mut q = p.clone();
+            q.values[i].huge = false;
+            out.push(q);
+        }
         if !p.values[i].simple {
             if p.values[i].budget > 0 {
                 let mut q = p.clone();
